@@ -121,7 +121,7 @@ fn year_hint_step1() {
     year_hint_body(r);
 }
 
-//@H props=C02,C08,C04 tier=thorough kind=bounded cap=3000 mem=medium bound="2 <= step <= 4" domain="all (start, end) x all dates x all intermediate dates"
+//@H props=C02,C08,C04 tier=deep kind=bounded cap=3000 mem=medium bound="2 <= step <= 4" domain="all (start, end) x all dates x all intermediate dates"
 #[cfg_attr(kani, kani::proof)]
 #[cfg_attr(verif_replay, test)]
 fn year_hint_step_2_to_4() {
@@ -646,7 +646,7 @@ fn day_selector_body<const UY: bool, const UM: bool, const UW: bool, const UWD: 
     core::mem::forget(sel);
 }
 
-//@H props=C01,C02,C08,C04 tier=thorough kind=bounded cap=3000 mem=medium bound="day selector with one year range (step 1) and one year-less month range" domain="all fields x all dates"
+//@H props=C01,C02,C08,C04 tier=deep kind=bounded cap=3000 mem=medium bound="day selector with one year range (step 1) and one year-less month range" domain="all fields x all dates"
 #[cfg_attr(kani, kani::proof)]
 #[cfg_attr(kani, kani::unwind(4))]
 #[cfg_attr(verif_replay, test)]
@@ -654,7 +654,7 @@ fn day_selector_year_and_month() {
     day_selector_body::<true, true, false, false>()
 }
 
-//@H props=C01,C04 tier=thorough kind=bounded cap=3000 mem=medium bound="day selector with one selector in each of the four dimensions" domain="all fields x all dates"
+//@H props=C01,C04 tier=deep kind=bounded cap=3000 mem=medium bound="day selector with one selector in each of the four dimensions" domain="all fields x all dates"
 #[cfg_attr(kani, kani::proof)]
 #[cfg_attr(kani, kani::unwind(4))]
 #[cfg_attr(verif_replay, test)]
